@@ -53,6 +53,10 @@ func UnmarshalCursor[Options any](v string, modifiers ...func(query *InitialPagi
 	if err := json.Unmarshal(res, &q); err != nil {
 		return nil, err
 	}
+	if q == nil {
+		// a JSON null resets the interface value
+		return nil, fmt.Errorf("invalid cursor: null")
+	}
 
 	var root *InitialPaginatedQuery[Options]
 	if x.Offset != nil { // Offset defined, this is an offset cursor
